@@ -38,7 +38,9 @@ std::string scanner_special(vf::ByteSource& b) {
   static const char* hosts[] = {"a", "example.com", "1.2.3.4", "0x7f.1", "1.2.3.4.5", "256.1.1.1", "4294967296", "0x", "1e3", "a.9", "a.0x1", "a.1x", "xn--a", "xn--", "XN--NXASMQ6B", "a%41", "a%", "%00", "a b", "a|b", "a^b", "a<b", "[::1]", "[::1", "::1]", "\xc3\xa9", "a\xc2\xad", "a.b..", ".", "..", "-", "a_b", "a*b", "a\x7f", "A.B", "0", "00", "08", "1.", "1..", "a\tb", "a\nb", "h:"};
   static const char* ports[] = {"", ":", ":0", ":80", ":443", ":65535", ":65536", ":00000080", ":99999999999", ":8a", ":-1", ": 80", ":80:80", ":\t80"};
   static const char* tails[] = {"", "/", "/p", "?q", "#f", "\\", "/a b", "/%", "/\xc3\xa9", "/.", "/..", "//", "/?#"};
-  std::string s = std::string(b.pick(sch)) + b.pick(sep) + b.pick(hosts) + b.pick(ports) + b.pick(tails);
+  // credentials: until the '@' is seen, "user:digits" looks exactly like "host:port" to a scanner
+  static const char* creds[] = {"", "", "", "", "u@", "u:p@", "u:123456@", "u:80@", ":99999@", "1:2@", "u:65536@", "user:0000099999@", "a:b:c@", "u%40:p@", "u:@", "u:8a@", "4294967296:1@"};
+  std::string s = std::string(b.pick(sch)) + b.pick(sep) + b.pick(creds) + b.pick(hosts) + b.pick(ports) + b.pick(tails);
   return s;
 }
 
